@@ -41,7 +41,7 @@ let table : (string * (Model.z -> Model.z -> string)) list = [
   (* givinteger.h *)
   "dom.div", one Model.dom_div; "dom.divin", one Model.dom_divin; "dom.mod", one Model.dom_mod; "dom.modin", one Model.dom_modin;
   "dom.divmod", two Model.dom_divmod; "dom.divexact", one Model.dom_divexact;
-  "dom.quo", one Model.dom_quo; "dom.quo!floor", one Model.dom_quo_floor; "dom.rem", one Model.dom_rem;
+  "dom.quo", one Model.dom_quo; "dom.quo!floor", one Model.dom_quo_floor; "dom.quo@qb", one Model.dom_quo; "dom.rem", one Model.dom_rem;
   "dom.quoin", one Model.dom_quoin; "dom.remin", one Model.dom_remin;
   "dom.quoRem", two Model.dom_quoRem; "dom.isDivisor", bl Model.dom_isDivisor;
 ]
